@@ -94,12 +94,19 @@ func siblingCompare(r *R, rule, rel string, fns []*ssa.Function, skip map[string
 			continue
 		}
 		a, b := effectRows(c, fn), effectRows(c, ref)
+		for i := range a {
+			a[i].Key = normRef(a[i].Key)
+		}
+		for i := range b {
+			b[i].Key = normRef(b[i].Key)
+		}
+		a, b = renumberRows(a, normAttrs), renumberRows(b, normAttrs)
 		am, bm := map[string][]string{}, map[string][]string{}
 		for _, row := range a {
-			am[normRef(row.Key)] = normAttrs(row.Attrs)
+			am[row.Key] = normAttrs(row.Attrs)
 		}
 		for _, row := range b {
-			bm[normRef(row.Key)] = normAttrs(row.Attrs)
+			bm[row.Key] = normAttrs(row.Attrs)
 		}
 		var diffs []string
 		for k, av := range am {
